@@ -129,7 +129,39 @@ def sig_stale_done_event(v: dict) -> bool:
     return False
 
 
+def _has(v, kind):
+    return any(e[0] == kind for e in (v.get("out") or []))
+
+
+def sig_sync_burst_cut(v: dict) -> bool:
+    return v.get("engine") == "sync" and _has(v, "cut_drain")
+
+
+def _diverged(v) -> bool:
+    return (v.get("observed_post") or {}).get("err") == ["Diverged"]
+
+
+def sig_async_diverged_done_chain(v: dict) -> bool:
+    return v.get("engine") == "async" and _diverged(v) and any(
+        e[0] == "event" and e[1].startswith("done.state.") for e in (v.get("out") or []))
+
+
+def sig_async_diverged_raise_chain(v: dict) -> bool:
+    out = v.get("out") or []
+    raised = sum(1 for e in out if e[0] == "ax" and "raise" in e[1])
+    silent = any(e[0] == "event" for e in out)
+    return v.get("engine") == "async" and _diverged(v) and raised > 0 and silent and not sig_async_diverged_done_chain(v)
+
+
+def sig_async_cut_with_backlog(v: dict) -> bool:
+    return v.get("engine") == "async" and _has(v, "cut_raise") and bool(v.get("steps")) and v["steps"][-1]["op"] == "batch"
+
+
 SIGNATURES: Dict[str, Callable[[dict], bool]] = {
+    "sync_burst_cut": sig_sync_burst_cut,
+    "async_diverged_done_chain": sig_async_diverged_done_chain,
+    "async_diverged_raise_chain": sig_async_diverged_raise_chain,
+    "async_cut_with_backlog": sig_async_cut_with_backlog,
     "stale_done_event": sig_stale_done_event,
     "start_step": sig_start_step,
     "chain_was_cut": sig_chain_was_cut,
